@@ -908,3 +908,234 @@ Proof.
   destruct (proj1 (Hmem h) (or_introl eq_refl)) as [Hh Hi]. repeat split; try assumption.
   intros x Hx Hxi. destruct (proj2 (Hmem x) (conj Hx Hxi)) as [->|Hr]; [lia|]. apply Hm, Hr.
 Qed.
+
+(* ====================================================================== C11: the object-table worklist *)
+Section WorklistBound.
+  Variable ld_otab : Z -> res (list oentry).
+  Variable ld_ktab : Z -> Z -> res ktable.
+  Variable ld_rlog : Z -> res unit.
+  Variable U : list Z.                       (* the offsets at which an object table can be loaded *)
+  Hypothesis HU : forall o t, ld_otab o = Ok t -> In o U.
+
+  Definition wl_inv (st : state) : Prop := NoDup (s_visited st) /\ incl (s_visited st) U.
+
+  Let pe := proc_entry ld_otab ld_ktab ld_rlog.
+  Let pes := proc_entries ld_otab ld_ktab ld_rlog.
+  Let step := wl_step ld_otab ld_ktab ld_rlog.
+  Let steps := wl_steps ld_otab ld_ktab ld_rlog.
+  Let iter := wl_iter ld_otab ld_ktab ld_rlog.
+
+  Lemma zmem_in x l : zmem x l = true <-> In x l.
+  Proof.
+    unfold zmem. rewrite existsb_exists. split.
+    - intros (y & Hy & He). apply Z.eqb_eq in He. now subst.
+    - intros H. exists x. split; [exact H|apply Z.eqb_refl].
+  Qed.
+
+  Lemma proc_entry_inv e st st' :
+    wl_inv st -> pe e st = Ok st' ->
+    wl_inv st' /\
+    (length (s_visited st') + length (s_pending st) = length (s_visited st) + length (s_pending st'))%nat.
+  Proof.
+    intros [Hnd Hincl]. unfold pe, proc_entry.
+    destruct (o_alloc e =? 0); [intros [= <-]; split; [split; assumption|reflexivity]|].
+    destruct (o_type e =? E.hyperv_ObjectEntryType_ObjectTable).
+    { destruct (zmem (o_off e) (s_visited st)) eqn:Hm; [intros [= <-]; split; [split; assumption|reflexivity]|].
+      destruct (ld_otab (o_off e)) as [t| |] eqn:Hld; cbn [bind]; try discriminate.
+      intros [= <-]. cbn [s_visited s_pending]. split; [split|].
+      - apply NoDup_rev in Hnd. rewrite <- (rev_involutive (s_visited st ++ [o_off e])). apply NoDup_rev.
+        rewrite rev_app_distr. cbn [rev app]. constructor; [|exact Hnd]. rewrite <- in_rev.
+        intros Hin. apply zmem_in in Hin. congruence.
+      - intros x Hx. apply in_app_or in Hx. destruct Hx as [Hx|[<-|[]]]; [auto|eapply HU; eassumption].
+      - rewrite !app_length. cbn [length]. lia. }
+    destruct (o_type e =? E.hyperv_ObjectEntryType_KeyTable).
+    { destruct (ld_ktab (o_off e) (o_size e)); cbn [bind]; try discriminate.
+      intros [= <-]. cbn [s_visited s_pending]. split; [split; assumption|reflexivity]. }
+    destruct (o_type e =? E.hyperv_ObjectEntryType_File).
+    { intros [= <-]. cbn [s_visited s_pending]. split; [split; assumption|reflexivity]. }
+    destruct (o_type e =? E.hyperv_ObjectEntryType_ReplayLog).
+    { destruct (ld_rlog (o_off e)); cbn [bind]; try discriminate.
+      intros [= <-]. split; [split; assumption|reflexivity]. }
+    intros [= <-]. split; [split; assumption|reflexivity].
+  Qed.
+
+  Lemma proc_entries_inv es : forall st st',
+    wl_inv st -> pes es st = Ok st' ->
+    wl_inv st' /\
+    (length (s_visited st') + length (s_pending st) = length (s_visited st) + length (s_pending st'))%nat.
+  Proof.
+    induction es as [|e es IH]; intros st st' Hinv; cbn [pes proc_entries].
+    - intros [= <-]. split; [assumption|reflexivity].
+    - fold pe. destruct (pe e st) as [st1| |] eqn:H1; cbn [bind]; try discriminate.
+      intros H2. destruct (proc_entry_inv e st st1 Hinv H1) as [Hinv1 Hl1].
+      destruct (IH st1 st' Hinv1 H2) as [Hinv2 Hl2]. split; [assumption|lia].
+  Qed.
+
+  Definition measure (st : state) : nat := (length U - length (s_visited st) + length (s_pending st))%nat.
+
+  Lemma visited_le st : wl_inv st -> (length (s_visited st) <= length U)%nat.
+  Proof. intros [Hnd Hincl]. apply NoDup_incl_length; assumption. Qed.
+
+  Lemma step_more st st' :
+    wl_inv st -> step st = WMore st' -> wl_inv st' /\ (S (measure st') = measure st)%nat.
+  Proof.
+    intros Hinv. unfold step, wl_step. destruct (s_pending st) as [|t rest] eqn:Hp; [discriminate|].
+    set (st0 := {| s_kts := s_kts st; s_fobjs := s_fobjs st; s_visited := s_visited st; s_pending := rest |}).
+    destruct (proc_entries ld_otab ld_ktab ld_rlog t st0) as [st1| |] eqn:Hpe; try discriminate.
+    intros [= <-].
+    assert (Hinv0 : wl_inv st0) by exact Hinv.
+    destruct (proc_entries_inv t st0 st1 Hinv0 Hpe) as [Hinv1 Hl].
+    split; [exact Hinv1|]. pose proof (visited_le _ Hinv1). pose proof (visited_le _ Hinv).
+    unfold measure. cbn [st0 s_visited s_pending] in Hl. rewrite Hp. cbn [length]. lia.
+  Qed.
+
+  (* the worklist ends within measure + 1 iterations: every object table is loaded at most once *)
+  Theorem worklist_bounded n : forall st,
+    wl_inv st -> (measure st < n)%nat -> forall st', steps n st <> WMore st'.
+  Proof.
+    induction n as [|n IH]; intros st Hinv Hm st'; [lia|].
+    cbn [steps wl_steps]. fold step. destruct (step st) as [d| | |st1] eqn:Hs; try discriminate.
+    destruct (step_more st st1 Hinv Hs) as [Hinv1 Hm1]. apply IH; [exact Hinv1|lia].
+  Qed.
+
+  Lemma steps_inv n : forall st st', wl_inv st -> steps n st = WDone st' -> wl_inv st'.
+  Proof.
+    induction n as [|n IH]; intros st st' Hinv; cbn [steps wl_steps]; [discriminate|].
+    fold step. destruct (step st) as [d| | |st1] eqn:Hs; try discriminate.
+    - intros [= <-]. unfold step, wl_step in Hs. destruct (s_pending st); [injection Hs as <-; exact Hinv|].
+      destruct (proc_entries _ _ _ _ _); discriminate.
+    - apply IH. apply (step_more st st1 Hinv Hs).
+  Qed.
+
+  Lemma steps_add a : forall b st,
+    steps (a + b) st = match steps a st with WMore st' => steps b st' | r => r end.
+  Proof.
+    induction a as [|a IH]; intros b st; [reflexivity|].
+    cbn [Nat.add steps wl_steps]. fold step. destruct (step st); try reflexivity. apply IH.
+  Qed.
+
+  Lemma iter_steps k : forall st, iter k st = steps (2 ^ k) st.
+  Proof.
+    induction k as [|k IH]; intros st.
+    - cbn [iter wl_iter Nat.pow steps wl_steps]. fold step. destruct (step st); reflexivity.
+    - cbn [iter wl_iter]. fold iter. replace (2 ^ S k)%nat with (2 ^ k + 2 ^ k)%nat by (cbn; lia).
+      rewrite steps_add, IH. destruct (steps (2 ^ k) st); try reflexivity. apply IH.
+  Qed.
+
+  Lemma steps_mono n m st : (n <= m)%nat -> (forall st', steps n st <> WMore st') -> steps m st = steps n st.
+  Proof.
+    intros Hle Hn. replace m with (n + (m - n))%nat by lia. rewrite steps_add.
+    destruct (steps n st) as [| | |st']; try reflexivity. destruct (Hn st' eq_refl).
+  Qed.
+
+  Hypothesis Hk_nofuel : forall o s, ld_ktab o s <> Fuel.
+  Hypothesis Hr_nofuel : forall o, ld_rlog o <> Fuel.
+  Hypothesis Ho_nofuel : forall o, ld_otab o <> Fuel.
+
+  Lemma proc_entries_nofuel es : forall st, pes es st <> Fuel.
+  Proof.
+    induction es as [|e es IH]; intros st; cbn [pes proc_entries]; [discriminate|].
+    assert (He : proc_entry ld_otab ld_ktab ld_rlog e st <> Fuel).
+    { unfold proc_entry. destruct (o_alloc e =? 0); [discriminate|].
+      destruct (o_type e =? _).
+      { destruct (zmem _ _); [discriminate|]. pose proof (Ho_nofuel (o_off e)).
+        destruct (ld_otab (o_off e)); cbn [bind]; congruence. }
+      destruct (o_type e =? _).
+      { pose proof (Hk_nofuel (o_off e) (o_size e)). destruct (ld_ktab _ _); cbn [bind]; congruence. }
+      destruct (o_type e =? _); [discriminate|].
+      destruct (o_type e =? _); [|discriminate].
+      pose proof (Hr_nofuel (o_off e)). destruct (ld_rlog _); cbn [bind]; congruence. }
+    destruct (proc_entry ld_otab ld_ktab ld_rlog e st) as [st1| |]; cbn [bind]; [apply IH|discriminate|congruence].
+  Qed.
+
+  Lemma steps_nofuel n : forall st, steps n st <> WFuel.
+  Proof.
+    induction n as [|n IH]; intros st; cbn [steps wl_steps]; [discriminate|].
+    unfold wl_step. destruct (s_pending st) as [|t rest]; [discriminate|].
+    pose proof (proc_entries_nofuel t {| s_kts := s_kts st; s_fobjs := s_fobjs st; s_visited := s_visited st;
+                                         s_pending := rest |}) as Hp. unfold pes in Hp.
+    destruct (proc_entries _ _ _ t _); [apply IH|discriminate|congruence].
+  Qed.
+
+  (* HyperVFile.__init__'s loop terminates whatever the object tables contain, and loads at most
+     |U| tables, each offset once *)
+  Theorem run_worklist_terminates k start :
+    (length U < 2 ^ k)%nat ->
+    run_worklist ld_otab ld_ktab ld_rlog k start <> Fuel /\
+    forall st, run_worklist ld_otab ld_ktab ld_rlog k start = Ok st ->
+               NoDup (s_visited st) /\ (length (s_visited st) <= length U)%nat.
+  Proof.
+    intros Hlen. unfold run_worklist.
+    destruct (ld_otab start) as [t0| |] eqn:H0; cbn [bind]; [|split; [discriminate|discriminate]|destruct (Ho_nofuel _ H0)].
+    fold iter. rewrite iter_steps.
+    assert (Hinv : wl_inv (init_state start t0)).
+    { split; cbn [init_state s_visited]; [repeat constructor; intros []|].
+      intros x [<-|[]]. eapply HU; eassumption. }
+    assert (Hm : (measure (init_state start t0) < 2 ^ k)%nat).
+    { unfold measure. cbn [init_state s_visited s_pending length].
+      pose proof (visited_le _ Hinv) as Hv. cbn [init_state s_visited length] in Hv. lia. }
+    pose proof (worklist_bounded _ _ Hinv Hm) as Hb. pose proof (steps_nofuel (2 ^ k) (init_state start t0)) as Hf.
+    split.
+    - destruct (steps (2 ^ k) (init_state start t0)) as [| | |st'] eqn:Hs;
+        [discriminate|discriminate|congruence|destruct (Hb st' eq_refl)].
+    - intros st. destruct (steps (2 ^ k) (init_state start t0)) as [d| | |st'] eqn:Hs; try discriminate.
+      intros [= <-]. pose proof (steps_inv _ _ _ Hinv Hs) as Hi. split; [apply Hi|apply visited_le, Hi].
+  Qed.
+End WorklistBound.
+
+(* ====================================================================== examples (non-vacuity) *)
+Definition ex_forest : list atree :=
+  [AT (1, 10) [99] PNode
+     [AT (2, 10) [118] (PLeaf (VInt 2304)) [];
+      AT (7, 57) [110] (PLeaf (VString [65])) [];
+      AT (2, 63) [115] PNode [AT (1, 80) [102] (PLeaf (VBool true)) []]]].
+
+Definition ex_free : lentry :=
+  {| l_id := (2, 40); l_par := root_id; l_key := []; l_keyok := true; l_free := true; l_isnode := false; l_val := Err |}.
+
+Definition ex_tables : tables :=
+  [(2, [top (1, 10) (AT (2, 10) [118] (PLeaf (VInt 2304)) []); ex_free;
+        top (1, 10) (AT (2, 63) [115] PNode [])]);
+   (7, [top (1, 10) (AT (7, 57) [110] (PLeaf (VString [65])) [])]);
+   (1, [top root_id (AT (1, 10) [99] PNode []); top (2, 63) (AT (1, 80) [102] (PLeaf (VBool true)) [])])].
+
+Lemma ex_nonvacuous :
+  tables_wf ex_tables /\ Permutation (live_entries ex_tables) (flat_forest root_id ex_forest) /\
+  NoDup (root_id :: flat_map aids ex_forest) /\ forest_keys_unique ex_forest /\
+  link ex_tables = Ok (Node [([99], Node [([118], Leaf (VInt 2304)); ([115], Node [([102], Leaf (VBool true))]);
+                                         ([110], Leaf (VString [65]))])]).
+Proof.
+  assert (Hnd : forall l : list ident, (forall a b, In a l -> In b l -> True) -> True) by trivial.
+  split; [|split; [|split; [|split]]].
+  - split.
+    + cbn. repeat constructor; cbn; intuition discriminate.
+    + intros idx l e Hin Hel. cbn in Hin.
+      destruct Hin as [[= <- <-]|[[= <- <-]|[[= <- <-]|[]]]]; cbn in Hel;
+        repeat (destruct Hel as [<-|Hel]; [reflexivity|]); contradiction.
+  - cbn.
+    (* live entries: v, s(ub), n, c(onfiguration), f(lag)  ~  c, v, n, s, f *)
+    match goal with |- Permutation [?v; ?s; ?n; ?c; ?f] [?c'; ?v'; ?n'; ?s'; ?f'] =>
+      apply (perm_trans (l' := [c; v; s; n; f])) end.
+    + apply Permutation_sym. change (Permutation ([?[c]] ++ [?[v]; ?[s]; ?[n]] ++ [?[f]]) _) || idtac.
+      apply (Permutation_cons_app [_; _; _] [_]). apply Permutation_refl.
+    + apply perm_skip, perm_skip, perm_swap.
+  - cbn. repeat constructor; cbn; intuition discriminate.
+  - cbn. repeat split; repeat constructor; cbn; intuition discriminate.
+  - vm_compute. reflexivity.
+Qed.
+
+Lemma ex_entry :
+  let e := {| se_type := 6 + 256 * 2; se_pidx := 1; se_poff := 10; se_ck := 7; se_ins := 3; se_key := [107];
+              se_body := enc_inline (VString [72; 105]) ++ [255; 255] |} in
+  parse_ktab (enc_ktable 5 9 0 [e] []) (10 + se_size e) = Ok {| kt_index := 5; kt_seq := 9; kt_entries := place 10 [e] |} /\
+  e_value {| fl_size := 0; fl_chunks := [] |} [] (rentry_of 10 e) = Ok (VString [72; 105]) /\
+  stored_as {| fl_size := 0; fl_chunks := [] |} [] (rentry_of 10 e) (VString [72; 105]).
+Proof.
+  cbn zeta. split; [vm_compute; reflexivity|]. split; [vm_compute; reflexivity|].
+  apply (st_inline _ _ _ (VString [72; 105]) [255; 255]).
+  - now left.
+  - vm_compute. reflexivity.
+  - vm_compute. reflexivity.
+  - cbn. repeat split; try reflexivity. repeat constructor; lia.
+  - vm_compute. reflexivity.
+Qed.
